@@ -81,7 +81,8 @@ def check_c09(prop, tier):
     cfgs = D.box(N, tier)
     res.bounds.update({"N_max": N, "configs": len(cfgs),
                        "passes_max": 3 if tier == "quick" else 5})
-    out = D.run_box(cfgs, props_stream.make_reducer(prop))
+    out = props_stream.merge_orders(
+        D.run_box(cfgs, props_stream.make_reducer(prop), orders=2))
     nontriv = 0
     for cfg, o in zip(cfgs, out):
         res.add(states=o["states"], transitions=o["transitions"],
